@@ -52,6 +52,10 @@ def make_case(seed, index, tier):
         for _ in range(rng.randint(1, 3)):
             rounds.append([rng.choice(OFFSETS), rng.choice(VOLUMES), rng.choice(LIMITS)])
         users.append({'name': 'u%d' % number, 'rounds': rounds})
+    if throughput not in ('inf', 'pipe-inf') and rng.random() < 0.2:
+        # a background load: a transfer of infinite volume that runs until it is interrupted
+        users.append({'name': 'bg', 'until': rng.choice([0.5, 1, 2, 3, 5]),
+                      'rounds': [[rng.choice(OFFSETS), 'inf', rng.choice([None, 0.5, 1, 4])]]})
     scenario = {'throughput': throughput, 'users': users}
     if rng.random() < 0.3:
         scenario['other_pipe'] = {
@@ -68,6 +72,7 @@ class PipeChecker:
         self.pipe = pipe
         self.scenario = scenario
         self.inflight = 0
+        self.deadlines = {}        # background loads: name -> time at which they are interrupted
         self.max_inflight = 0
         self.ends = {user['name']: [] for user in scenario['users']}
         self.stats = {'completions_checked': 0, 'overlapping_runs': 0, 'ambiguous_runs': 0,
@@ -96,12 +101,15 @@ class PipeChecker:
         scenario = self.scenario
         throughput = float('inf') if scenario['throughput'] in ('inf', 'pipe-inf') \
             else scenario['throughput']
-        participants = {user['name']: [(r[0], r[1], float('inf') if r[2] == 'inf' else r[2])
+        participants = {user['name']: [(r[0], float('inf') if r[1] == 'inf' else r[1],
+                                        float('inf') if r[2] == 'inf' else r[2])
                                        for r in user['rounds']]
                         for user in scenario['users']}
         removals = {}
         for n, kind, name, when in self.arena.struck:
             removals.setdefault(name, when)
+        for name, when in self.deadlines.items():
+            removals[name] = min(when, removals.get(name, when))
         expected, ambiguous = fluid.simulate(throughput, participants, removals)
         if self.max_inflight >= 2:
             self.stats['overlapping_runs'] += 1
@@ -169,6 +177,11 @@ def build_for(case):
                     checker.inflight += 1
                     checker.max_inflight = max(checker.max_inflight, checker.inflight)
                     try:
+                        if spec.get('until') is not None:
+                            checker.deadlines[name] = time.now + spec['until']
+                            async with usim.until(time + spec['until']):
+                                await pipe.transfer(float('inf'), limit)
+                            return
                         await pipe.transfer(volume, float('inf') if limit == 'inf' else limit)
                     except BaseException:
                         checker.stats['transfers_struck'] += 1
